@@ -71,7 +71,7 @@ def headMap (cnt : Nat) (v : Vec K n) (f : Fin n → K) : Vec K n :=
   Vector.ofFn fun i => if i.val < cnt then f i else v[i]
 
 /-- inf-norm over the first `cnt` entries -/
-def headInfNorm (cnt : Nat) (v : Vec K n) : K := maxFinHead 0 cnt n (fun i => vabs v[i])
+def headInfNorm (cnt : Nat) (v : Vec K n) : K := Vec.headInfNorm cnt v
 
 /-- symmetric scaling of the stored upper triangle: `P(i,j) *= a_i a_j` for `i ≤ j` -/
 def scaleP (P : Mat K n n) (a : Vec K n) : Mat K n n :=
@@ -201,8 +201,9 @@ def Precond.scaleData (kind : PrecKind) (sqrtF : K → K) (cs : Consts K)
                          dxInv := Vector.ofFn fun k => 1 / pr.dx[k],
                          dyInv := Vector.ofFn fun k => 1 / pr.dy[k],
                          dzInv := Vector.ofFn fun k => 1 / pr.dz[k],
-                         dlbInv := headMap d.lb.cnt pr.dlbInv fun k => 1 / pr.dlb[k],
-                         dubInv := headMap d.ub.cnt pr.dubInv fun k => 1 / pr.dub[k] })
+                         -- full length (fix db8b486): the scratch content never survives `scale_data`
+                         dlbInv := Vector.ofFn fun k => 1 / pr.dlb[k],
+                         dubInv := Vector.ofFn fun k => 1 / pr.dub[k] })
       else
         let P1 := scaleP (scaleAll d.P pre0.c) pre0.dx
         ({ d with P := P1, c := Vector.ofFn fun k => d.c[k] * (pre0.c * pre0.dx[k]),
